@@ -76,7 +76,10 @@ class Args(object):
             for i, v in enumerate(value):
                 value[i] = option.parse(v)
         elif option.accepts_value():
-            value = option.parse(value)
+            if value is not None or not option.is_value_optional():
+                # An optional value that was not given (and has no default)
+                # stays None, whatever the type of the option
+                value = option.parse(value)
         elif value is False:
             if option.long_name in self._options:
                 del self._options[option.long_name]
